@@ -372,6 +372,15 @@ func (n *Net) Mode(by int, ch string, changes []ModeChange) []string {
 	return []string{l}
 }
 
+// ClientReconnected: the client's connection ended and it registered again. For the network that
+// is a quit followed by a fresh registration: the client is on no channel.
+func (n *Net) ClientReconnected() {
+	for ch := range n.Chans {
+		n.leave(n.Me, ch)
+	}
+	n.RefreshViews()
+}
+
 // ---- replies to what the client asks ----
 
 func (n *Net) ReplyMode(ch string) []string {
